@@ -50,4 +50,41 @@ PROPS = {
         "assumptions": COMMON_ASSUME + ["termination is only checked as: on the small profile (<=12 constructor calls, loop bounds <=3) the iterator ends within 50000 items"],
         "min_counters": {"closures_enumerated": (5000, 50000), "try_compile_bound_probes": (20000, 200000), "small_profile_programs": (500, 5000)},
     },
+    "C06": {
+        "level": "exploration",
+        "exhaustive": False,
+        "rule": "exhaustive part: all pairs of strings of length <= 4 (thorough 5) over {a,b} x 14 boundary integers for the index x 7 for the length, x 3 replacement texts; random part: strings up to length 40 over 5 letters incl. 0 and 0x2FFFF with planted/overlapping occurrences and indices near i32 limits. distinct key = argument tuple (exhaustive part: the pair of strings); non-trivial = every tuple of the random part and every pair of the exhaustive part",
+        "explanation": "each of str_concat, str_len, str_at, str_substr, str_prefixof, str_suffixof, str_contains, str_indexof, str_replace, str_replace_all is compared on every tuple with a declarative definition written from the SMT-LIB 2.6 text; a panic is a violation",
+        "assumptions": ["the declarative definitions in oracle/smt.rs transcribe SMT-LIB 2.6 correctly (cross-checked once against cvc5 1.0 at the contested boundaries: indexof of the empty pattern at index = length)"],
+        "min_counters": {"function_evaluations": (1000000, 10000000)},
+    },
+    "C08": {
+        "level": "exploration",
+        "rule": "texts: ALL texts up to length 6 (thorough, release build: 7) over the 10 symbols \\ u { } \" 0 a F g 2, plus random texts up to length 40; strings: ALL sequences up to length 4 (thorough 5) over 12 code points that spell escapes, all 196608 single code points, random strings. distinct key = the text / string; non-trivial = exhaustive texts of length >= 3 starting with a backslash, exhaustive strings containing a backslash, all random ones",
+        "explanation": "parse_smt_literal vs a grammar-level parser sharing no state machine with the crate; Display must be printable ASCII in double quotes with doubled quotes, and its body read back by BOTH parsers must be the original string; char_to_smt / smt_char_as_string must agree with Display",
+        "assumptions": ["the grammar-level parser in oracle/smt.rs transcribes the SMT-LIB 2.6 escape grammar: backslash-u + 4 hex digits, or backslash-u{1-5 hex digits} with value <= 0x2FFFF, anything else verbatim"],
+        "min_counters": {"texts_parsed": (1000000, 10000000), "strings_printed": (200000, 400000), "single_code_points": (393216, 393216)},
+    },
+    "C09": {
+        "level": "exploration",
+        "rule": "order: all pairs of strings of length <= 3 over {0,a,b,0x2FFFF} + random triples; to_int: all digit strings of length <= 5, +-20 around 2^31, 2^32, 10^10, 2^33, 2^63, 2^64, 3*2^31, 5*2^30, random 1-20 digit strings, one non-digit at a random position; codes: all of [-3,0x30003]; from_int: boundaries + random. Both build profiles run the same inputs. distinct key = input; non-trivial = pairs/triples, boundary and random numerals",
+        "explanation": "str_lt/str_le vs Rust slice order; str_to_int vs u128 arithmetic, and when the value exceeds i32::MAX the call must panic in BOTH the release build (no overflow checks) and the dbg build; code/int round trips",
+        "assumptions": ["the documented behaviour of str_to_int on overflow is a panic (doc comment of the function)"],
+        "min_counters": {"to_int_probes": (200000, 300000), "to_int_overflow_cases": (1000, 10000), "order_probes": (10000, 100000), "code_probes": (390000, 390000)},
+    },
+    "C15": {
+        "level": "exploration",
+        "exhaustive": True,
+        "rule": "ALL ranges with start <= 8 and end <= 10 or infinite (72 ranges), all 5184 ordered pairs, all scale factors <= 8, plus large-value probes for overflow; distinct key = the range or pair; every case non-trivial",
+        "explanation": "ranges are read as explicit sets of naturals (exact up to 128); add vs set of sums, scale vs k-fold sum, shift vs predecessors, contains/includes vs membership/inclusion, mul contains all products, right_mul_is_exact(r,s) iff union over y in s of the y-fold sums of r equals r.mul(s); on large values a documented overflow panic is accepted and a wrapped result is a violation",
+        "assumptions": ["truncation at 128 is exact for the enumerated domain (all finite results are <= 100; gaps of infinite unions appear below 82)"],
+        "min_counters": {"pairs": (10368, 10368), "singles": (144, 144)},
+    },
+    "C17": {
+        "level": "exploration",
+        "rule": "integer constructors over 14 boundary values (singles and pairs) and random u32 slices; From<char>/From<&str>/From<String>/parse_smt_literal over ALL chars in U+2FF00..U+30100 and U+10FF00..U+10FFFF (alone and embedded) and random strings; results of str_* functions, regex replace and get_string on well-formed inputs. distinct key = input; all non-trivial",
+        "explanation": "every produced SmtString must be is_good with all elements <= 0x2FFFF, valid values kept, invalid integers replaced by 0xFFFD, and ReManager::str of the string must not panic and must contain it",
+        "assumptions": [],
+        "min_counters": {"strings_checked": (50000, 500000), "rust_string_probes": (5000, 50000), "get_string_results_checked": (500, 5000)},
+    },
 }
